@@ -20,7 +20,7 @@ PROPS = {
         frags=[("eval", 2500, 60000), ("scalar-eq", 150, 3000), ("absent", 60, 800), ("unroll", 200, 4000)],
         finding_props=["C01"], rule=EVAL_RULE,
     ),
-    "C02": dict(title="Equality in the value's own type", level="proof", lean=['Ties.Coerce'], theorems={},
+    "C02": dict(title="Equality in the value's own type", level="proof", lean=['Props.C02', 'Ties.Coerce'], theorems={},
                 frags=[("scalar-eq", 400, 12000)], rule="scalar kinds x boundary values x literal spellings rendered from the value (equal / nearby / ill-typed / out of range); reference = strconv in the value's own type"),
     "C03": dict(title="not/and/or truth tables", level="proof", lean=['Props.C03', 'Ties.EvaluateShape'], theorems={},
                 frags=[("conn", 250, 6000)], rule="pairs (A,B) of generated sub-expressions on generated data; composites checked against the 3x3 table of the observed outcomes of A and B"),
@@ -30,7 +30,7 @@ PROPS = {
                 frags=[("absent", 120, 2500)], rule="JSON-like documents; absent key below every map-valued path x 8 operators x {no unknown, unknown scalar}; error paths; neutral unknown"),
     "C06": dict(title="any/all fold", level="proof", lean=[], theorems={},
                 frags=[("unroll", 600, 15000), ("eval", 800, 15000)], rule="quantifiers over list paths of generated data, four binding modes, names colliding with the collection path / top-level fields; compared with the unrolled or/and chain on the real code"),
-    "C07": dict(title="selector spellings interchangeable", level="proof", lean=[], theorems={},
+    "C07": dict(title="selector spellings interchangeable", level="proof", lean=['Props.C16Lex'], theorems={},
                 frags=[("spelling", 500, 12000), ("parse-deriv", 300, 6000)], rule="expressions whose paths are spellable both ways, rendered all-dotted/bracket, all-pointer and mixed"),
     "C08": dict(title="hidden fields unobservable", level="proof", lean=['Props.C08'], theorems={},
                 frags=[("hidden", 500, 12000)], rule="pairs of data equal on visible fields (hidden = unexported or tagged '-' under the active tag name), expressions naming hidden fields; both tag names; filter positions"),
@@ -48,7 +48,7 @@ PROPS = {
                 frags=[("det", 150, 3000)], rule="quantifiers/filters over maps of 2..8 entries with mixed T/F/E elements, each evaluated 41 times"),
     "C15": dict(title="parser accepts exactly the language", level="proof", lean=[], theorems={},
                 frags=[("parse-tokens", 1500, 100000), ("parse-deriv", 800, 30000), ("parse-bytes", 500, 20000)], rule="exhaustive token sequences up to k (k=2 quick, 3 thorough) with/without blanks; random derivations with token mutations; result incl. AST and step count compared with the model engine on the regenerated table"),
-    "C16": dict(title="print-then-parse round trip", level="proof", lean=[], theorems={},
+    "C16": dict(title="print-then-parse round trip", level="proof", lean=['Props.C16Lex'], theorems={},
                 frags=[("parse-deriv", 1200, 40000), ("quote-rt", 400, 8000)], rule="random trees x random renderings (blanks, parentheses, literal and selector styles) must parse to the printed tree; X == <quoted s> for adversarial s"),
     "C17": dict(title="Filter.Execute", level="proof", lean=['Props.C17'], theorems={},
                 frags=[("filter", 500, 15000)], rule="containers of every shape (slices, named slices, arrays, maps of every key type, nil/empty, non-containers, nil) compared with element-wise Evaluate; idempotence; partition"),
